@@ -11,7 +11,13 @@
    Deviations (named behaviours of the code as found, used as model regressions):
      "split_drops_first_byte"   a line that does not fit the remainder loses its first byte
      "rename_same_second"       the rotated name has second resolution: a second rotation in
-                                the same clock second overwrites the first rotated file      *)
+                                the same clock second overwrites the first rotated file
+   Model regression only (never the code as found):
+     "names_from_instance_memory" the rotated name is built from a counter the writer keeps in
+                                memory instead of from what exists on disk: after Reopen (the
+                                channel is closed and opened again on the same path, e.g. a
+                                restart) the counter starts again and an earlier rotated file
+                                of the same clock second is overwritten                      *)
 EXTENDS Integers, Sequences, FiniteSets, TLC
 
 CONSTANTS MaxSize, Lens, MaxLines, Deviations
@@ -35,10 +41,16 @@ Send(n) == /\ nextId <= MaxLines
            /\ nextId' = nextId + 1
            /\ UNCHANGED <<active, rotated, taken, removed, damaged, clock, serial>>
 
-\* rotate: the active file gets a fresh name (strict) or the clock's name (deviation)
-RotName(s) == IF "rename_same_second" \in Deviations THEN <<"t", clock>> ELSE <<"t", clock, s>>
+\* rotate: the active file gets a name that is free ON DISK (strict), the clock's name, or one built
+\* from the writer's own counter (deviations)
+FirstFree(rot) == CHOOSE s \in 0..Len(rot) :
+                    /\ ~\E i \in 1..Len(rot) : rot[i].name = <<"t", clock, s>>
+                    /\ \A r \in 0..(s - 1) : \E i \in 1..Len(rot) : rot[i].name = <<"t", clock, r>>
+RotName(rot, s) == IF "rename_same_second" \in Deviations THEN <<"t", clock>>
+                   ELSE IF "names_from_instance_memory" \in Deviations THEN <<"t", clock, s>>
+                   ELSE <<"t", clock, FirstFree(rot)>>
 Rotate(act, rot, s) ==
-  LET nm == RotName(s)
+  LET nm == RotName(rot, s)
       keep == SelectSeq(rot, LAMBDA f : f.name # nm)        \* same name: overwritten
   IN Append(keep, [name |-> nm, lines |-> act])
 
@@ -59,6 +71,14 @@ Flush(k) == /\ k >= 1 /\ k <= Len(pending)
             /\ pending' = SubSeq(pending, k + 1, Len(pending))
             /\ UNCHANGED <<taken, removed, clock, nextId>>
 
+\* the channel is closed and opened again on the same path (restart, re-created channel): what the
+\* writer kept in memory is gone; a file already at its maximum is rotated on open
+Reopen == /\ pending = <<>>
+          /\ IF Size(active) >= MaxSize
+               THEN rotated' = Rotate(active, rotated, 0) /\ active' = <<>> /\ serial' = 1
+               ELSE UNCHANGED <<rotated, active>> /\ serial' = 0
+          /\ UNCHANGED <<pending, taken, removed, damaged, clock, nextId>>
+
 Tick == clock' = clock + 1 /\ clock < 2 /\ UNCHANGED <<pending, active, rotated, taken, removed, damaged, nextId, serial>>
 
 \* an operator deletes / renames the active log file between writes; the next write recreates it
@@ -73,7 +93,7 @@ ExtRename == /\ active # <<>>
 
 Next == \/ \E n \in Lens : Send(n)
         \/ \E k \in 1..3 : Flush(k)
-        \/ Tick \/ ExtRemove \/ ExtRename
+        \/ Tick \/ ExtRemove \/ ExtRename \/ Reopen
 Spec == Init /\ [][Next]_vars /\ WF_vars(\E k \in 1..3 : Flush(k))
 
 \* ---- properties ---------------------------------------------------------------------
